@@ -13,8 +13,8 @@ def run(ctx):
                 "callbacks with endmarker, chunked reads, random schedules: obtained items are a prefix of the sent items, EOFError repeated, endmarker "
                 "once, no hang, then newchannel/remote_exec/send -> OSError and hasreceiver() false; (d) byte level: every cut offset of small frame "
                 "streams through the real read loops (shared with C08)")
-    netprops.op_level(ctx, res, PROP, ctx.budget(350, 3000, 500), profile={"cut": True})
-    netprops.run_scenarios(ctx, res, netprops.scenario_cut, ctx.budget(250, 10000, 800), "cut")
+    netprops.op_level(ctx, res, PROP, ctx.budget(350, 18000, 500), profile={"cut": True})
+    netprops.run_scenarios(ctx, res, netprops.scenario_cut, ctx.budget(250, 60000, 800), "cut")
     try:
         from . import c08
         if hasattr(c08, "byte_level_cuts"):
